@@ -511,6 +511,27 @@ def main():
                 add('random_schema', gen_schema(rng))
             for _ in range(2500 if tier == 'quick' else 60000):
                 add('random_bytes', gen_bytes(rng))
+            # duplicate names at every pair of positions of wide definitions (struct, oneof fields;
+            # top-level names), with mixed line endings before the offending line
+            for kw in ('struct', 'oneof'):
+                for n in (2, 3, 8, 9, 10, 11, 17, 24) if tier == 'quick' else range(2, 30):
+                    pairs = [(i, j) for i in range(n) for j in range(i + 1, n)]
+                    if tier == 'quick' and len(pairs) > 14:
+                        pairs = [pairs[rng.below(len(pairs))] for _ in range(10)] + [(0, n - 1), (7, n - 1), (8, n - 1), (n - 2, n - 1)]
+                    for (i, j) in pairs:
+                        if not (0 <= i < j < n):
+                            continue
+                        names = ['f%d' % k for k in range(n)]
+                        names[j] = names[i]
+                        eol = rng.choice(['\n', '\r\n', '\r', '\n', '\n'])
+                        body = ''.join('  %s uint64%s' % (nm, rng.choice(['\n', eol])) for nm in names)
+                        add('wide_duplicate_field', ('package a.b' + eol + 'struct R root {' + eol + '  X T' + eol + '}' + eol
+                                                     + kw + ' T {' + eol + body + '}\n').encode())
+            for n in (3, 9, 12):
+                for j in range(1, n):
+                    defs = ['struct S%d {\n  a uint64\n}\n' % k for k in range(n)]
+                    defs[j] = defs[j].replace('S%d' % j, 'S%d' % rng.below(j))
+                    add('duplicate_top_level', ('package a\nstruct R root {\n  x S0\n}\n' + ''.join(defs)).encode())
         else:
             for _ in range(2500 if tier == 'quick' else 60000):
                 add('random_schema', gen_schema(rng))
